@@ -559,7 +559,7 @@ func TestCheck(t *testing.T) {
 		r.Assume("identity strings with leading/trailing blanks are not generated: no HTTP field value can carry them")
 		r.Assume("an allowed impersonation that is forwarded under the authenticated identity is counted (allowed_forwarded_as_self), not judged: the statement permits the authenticated identity unconditionally")
 
-		n := r.N(6000, 120000)
+		n := r.N(30000, 120000)
 		workers := 8
 		withH2 := !r.Quick()
 		pool := make(chan *testbed, workers)
